@@ -662,10 +662,15 @@ impl CaseSpace for OMax {
         populate(&mut sim, false);
         let mut p = OProbe { seq: 0 };
         let key = format!("outstation/maximal/fc{func}");
-        // SELECT first when the function is OPERATE so that the echo path is the matching one
+        // OPERATE: after the matching SELECT (odd lengths), or after a small SELECT that it does
+        // not match (even lengths) -- the echo is built by different branches
         if func == fc::OPERATE {
             let s = p.next();
-            sim.send(&app::request(s, fc::SELECT, &objs));
+            if len % 2 == 1 {
+                sim.send(&app::request(s, fc::SELECT, &objs));
+            } else {
+                sim.send(&app::request(s, fc::SELECT, &app::prefixed8(12, 1, &[(0, app::crob(0x03, 1, 10, 10, 0))])));
+            }
         }
         let s = p.next();
         let f = app::request(s, func, &objs);
@@ -690,6 +695,58 @@ impl CaseSpace for OMax {
         }
         finish(&mut res, &sim, "C01.O1", key, "maximal control request");
         res.model_states.push(len as u64);
+        res
+    }
+}
+
+/// a legal but very large receive buffer: one request carrying more than 65 535 control objects
+struct OHuge;
+
+impl CaseSpace for OHuge {
+    fn name(&self) -> String {
+        "outstation-huge-control-request".into()
+    }
+    fn total(&self) -> usize {
+        4 * 2 * 2
+    }
+    fn run(&self, index: usize, transcript: bool) -> RunResult {
+        let mut res = RunResult::default();
+        let func = [fc::SELECT, fc::OPERATE, fc::DIRECT_OPERATE, fc::DIRECT_OPERATE_NR][index % 4];
+        let decode_all = (index / 4) % 2 == 1;
+        let limited = index / 8 == 1;
+        res.obs = index as u64 + 65536;
+        let c = Corner { sol_tx: 2048, unsol_tx: 2048, rx: 300_000, decode_all, close: true };
+        let mut cfg = ocfg(&c, false);
+        cfg.max_controls = if limited { Some(10) } else { None };
+        let mut sim = OSim::new(&cfg, 1);
+        populate(&mut sim, false);
+        let mut p = OProbe { seq: 0 };
+        // 258 headers x 255 g41v2 objects (8-bit index) = 65 790 controls, 264 192 octets
+        let mut objs = Vec::new();
+        for h in 0..258usize {
+            objs.extend(app::prefixed8(41, 2, &(0..255usize).map(|i| (i as u8, app::g41v2((h + i) as i16, 0))).collect::<Vec<_>>()));
+        }
+        let key = format!("outstation/huge/fc{func}");
+        if func == fc::OPERATE {
+            let s = p.next();
+            sim.send(&app::request(s, fc::SELECT, &objs));
+        }
+        let s = p.next();
+        sim.take_out();
+        sim.send(&app::request(s, func, &objs));
+        res.transitions += 1;
+        if transcript {
+            res.transcript.push(format!("function {func}: 65 790 control objects in one {}-octet fragment; rx buffer 300 000, max_controls {:?}", objs.len() + 2, cfg.max_controls));
+        }
+        match p.probe(&mut sim, 2 * CONFIRM_MS, if transcript { Some(&mut res.transcript) } else { None }) {
+            Ok(o) if binaries_ok(&o) => res.nontrivial = true,
+            Ok(o) => res.violation = Some(Violation::new("C01.O2", key.clone(), format!("probe answered with {}", app::hex(&o)))),
+            Err(e) => {
+                let clause = if sim.failure().is_some() { "C01.O1" } else { "C01.O3" };
+                res.violation = Some(Violation::new(clause, fail_key(&key, &e), format!("function {func} with 65 790 control objects (rx buffer 300 000): {e}")));
+            }
+        }
+        finish(&mut res, &sim, "C01.O1", key, "huge control request");
         res
     }
 }
@@ -1559,6 +1616,7 @@ fn spaces(tier: &str) -> Vec<Box<dyn CaseSpace>> {
         Box::new(build_ofrags(tier)),
         Box::new(OStates { corners: corners(tier), hostile: small_hostile() }),
         Box::new(build_omax(tier)),
+        Box::new(OHuge),
         Box::new(build_ostream(tier)),
         Box::new(build_otransport(tier)),
         Box::new(build_oreplaced()),
